@@ -12,9 +12,11 @@ e) the watermark that de-duplicates the delta against the stored frames is read 
 d) materialisation pruning strictness: a zone / segment is skipped only under `timestamp_max < high_water` (strict) or `created_at <= created_at`.
 (f) the delta query always carries the materialisation's watermark: in ShowExecutionPipeline::run the metadata entries "materialization_high_water_ts" and "materialization_high_water_event_id" are
 inserted on every path that reaches build_delta_command (without them the zone selectors fall back to pruning by creation time and drop a zone flushed in the same second as the REMEMBER).
+(g) the watermark is the MAXIMUM over everything materialised, whatever order the batches arrive in: MaterializedSink::append and bootstrap_from_manifest change self.high_water only through
+HighWaterMark::advance (never by assigning one frame's mark); delta batches arrive memtable-first and shard by shard, so 'the last frame' is not the newest event.
 """
-FLOOR = 7
-REQUIRED = ["C14.a", "C14.b", "C14.c", "C14.d1", "C14.d2", "C14.e", "C14.f"]
+FLOOR = 8
+REQUIRED = ["C14.a", "C14.b", "C14.c", "C14.d1", "C14.d2", "C14.e", "C14.f", "C14.g"]
 
 
 def run(ctx):
@@ -183,3 +185,21 @@ def run(ctx):
             bad += must_cross(b, bd.bb, cut_blocks=[c_.bb for c_ in cs], key="watermark-not-sent:%s" % key, detail="the delta query can be built without %s: the zone selectors then prune by creation time" % key)
         return bad
     ctx.run("C14.f", "K2 CUT", "ShowExecutionPipeline::run", "the delta query always carries the watermark", f_)
+
+    def g_(inst):
+        bad = []
+        for nm in ("MaterializedSink::append", "MaterializedSink::bootstrap_from_manifest"):
+            b = F.fn(nm)
+            adv = [c_ for c_ in b.find_calls(r"HighWaterMark::advance$")]
+            plain = []
+            for i in sorted(b.live_blocks()):
+                for st in b.blocks[i]["s"]:
+                    if st.get("a") and [p_ for p_ in st["a"][1:] if p_ != "*"][-1:] == [".high_water"] and st.get("v", {}).get("r") == "use":
+                        plain.append(i)
+            inst.sites.append("%s: advance x%d, plain assignments to high_water x%d" % (nm.split("::")[-1], len(adv), len(plain)))
+            if plain:
+                bad.append(("watermark-assigned:%s" % nm.split("::")[-1], "%s assigns self.high_water from one frame's mark (%s): frames arrive in arbitrary order, so the stored watermark can be older than rows already materialised and the next SHOW returns them again" % (nm, sp(b, plain[0])), None))
+            elif not adv:
+                bad.append(("watermark-not-advanced:%s" % nm.split("::")[-1], "%s never advances self.high_water" % nm, None))
+        return bad
+    ctx.run("C14.g", "K4 EFFECT", "MaterializedSink::append / bootstrap_from_manifest", "the high-water mark is the maximum over all frames", g_)
